@@ -198,10 +198,29 @@ def extract(res):
     return b
 
 
-def analyze(files, lang):
-    """Run P1 on {relpath: text}; returns (Bindings, Result).  Caller must lianrun.cleanup(result)."""
-    res = lianrun.analyze(files, lang=lang, sub_command="semantic", capture_flows=False)
+def analyze(files, lang, export=False, sub_command="semantic", settings_dir=None, capture_flows=False):
+    """Run lian in-process on {relpath: text}; returns (Bindings, Result).  Caller must lianrun.cleanup(result).
+
+    export=False skips Loader.export() (writing ~140 feather files costs 2/3 of a run); everything is then read
+    from the loader's memory.  export=True is the unmodified run; main() cross-checks a sample of cases
+    between the two and against the exported semantic_p1/s2space_p1 bundles."""
+    restore = None
+    if not export:
+        from lian.util import loader as _loader
+        orig = _loader.Loader.export
+        _loader.Loader.export = lambda self: None
+        restore = lambda: setattr(_loader.Loader, "export", orig)
+    try:
+        res = lianrun.analyze(files, lang=lang, sub_command=sub_command, capture_flows=capture_flows,
+                              settings_dir=settings_dir)
+    finally:
+        if restore:
+            restore()
     return extract(res), res
+
+
+def triples(bind):
+    return sorted(set((s["stmt_id"], s["name"], s["symbol_id"]) for s in bind.symbols))
 
 
 def bindings_from_files(res):
